@@ -448,7 +448,10 @@ fn check_width(idx: usize, case: &Value) -> Option<Value> {
         _ => ['*', '}', ':', '0'][idx % 4],
     };
     let right = prm["align"] == "R";
-    let mut pattern = String::from("{m");
+    // every third case puts literal text with multi-byte characters in front of the spec (positions inside the pattern
+    // are byte offsets for some parts of a parser and character counts for others)
+    let prefix = if idx % 3 == 1 { "\u{e9}\u{4e16}|" } else { "" };
+    let mut pattern = format!("{}{{m", prefix);
     if mn >= 0 || mx >= 0 {
         pattern.push(':');
         if mn >= 0 {
@@ -505,6 +508,10 @@ fn check_width(idx: usize, case: &Value) -> Option<Value> {
     let got = match String::from_utf8(bytes) {
         Ok(s) => s,
         Err(e) => return Some(json!({"what": "output is not valid UTF-8", "pattern": pattern, "pieces": pieces, "bytes": format!("{:?}", e.as_bytes())})),
+    };
+    let got = match got.strip_prefix(prefix) {
+        Some(g) => g.to_string(),
+        None => return Some(json!({"what": "literal text before the spec is not rendered", "pattern": pattern, "actual": got})),
     };
     if mx >= 0 && got.chars().count() as i64 > mx {
         return Some(json!({"what": "more than max characters emitted", "pattern": pattern, "pieces": pieces, "actual": got}));
